@@ -257,3 +257,38 @@ Section Spans.
     - destruct (tend t) as [l c]. cbn [fst snd] in *. f_equal; lia.
   Qed.
 End Spans.
+
+(* ---------- executable side of the tie: the hypothesis [wf_positions] is decided on every tokenizer stream of a run
+   (it must hold for them, otherwise the theorem does not speak about real inputs), and the layout model [spans] is
+   compared with tokenize(reformatted_code) *)
+Definition lex_leb (a b : pos) : bool := (fst a <? fst b) || ((fst a =? fst b) && (snd a <=? snd b)).
+Lemma lex_leb_ok : forall a b, lex_leb a b = true -> lex_le a b.
+Proof.
+  unfold lex_leb, lex_le. intros a b H. apply orb_true_iff in H. destruct H as [H | H].
+  - left. apply Z.ltb_lt. exact H.
+  - right. apply andb_true_iff in H. destruct H as [H1 H2]. split; [apply Z.eqb_eq; exact H1 | apply Z.leb_le; exact H2].
+Qed.
+Fixpoint wf_fromb (E : pos) (ts : list token) : bool :=
+  match ts with
+  | [] => true
+  | t :: r => lex_leb E (tstart t) && lex_leb (tstart t) (tend t) &&
+              (match kwd t with Some _ => pos_eqb (tend t) (fst (tstart t), snd (tstart t) + slen (tstr t)) | None => true end) &&
+              wf_fromb (tend t) r
+  end.
+Definition wf_positionsb (ts : list token) : bool := match ts with [] => true | t :: _ => wf_fromb (tstart t) ts end.
+Lemma wf_fromb_ok : forall ts E, wf_fromb E ts = true -> wf_from E ts.
+Proof.
+  induction ts as [| t r IH]; intros E H; cbn in *; [exact I |].
+  repeat (apply andb_true_iff in H; destruct H as [H ?]).
+  split; [apply lex_leb_ok; assumption |]. split; [apply lex_leb_ok; assumption |]. split; [| apply IH; assumption].
+  intro K. destruct (kwd t); [| contradiction K; reflexivity]. apply pos_eqb_iff. assumption.
+Qed.
+Lemma wf_positionsb_ok : forall ts, wf_positionsb ts = true -> wf_positions ts.
+Proof. intros [| t r] H; [exact I |]. apply wf_fromb_ok. exact H. Qed.
+
+(* every (start, end) of [expected] -- the significant tokens of the re-tokenized rewritten text -- is the modelled
+   span of some token of the stream;  0 = ok, 1 = positions not tokenizer-like, 2 = layout model disagrees *)
+Definition span_tie (ts : list token) (expected : list (pos * pos)) : Z :=
+  if negb (wf_positionsb ts) then 1
+  else let model := map (fun x => (snd (fst x), snd x)) (spans [] ts) in
+       if forallb (fun e => existsb (fun m => pos_eqb (fst e) (fst m) && pos_eqb (snd e) (snd m)) model) expected then 0 else 2.
